@@ -209,7 +209,7 @@ def run_obligation(task):
     shard = obl.get("shard", {})
     types = obl["types"]
     pre_fn = getattr(mod, obl["pre"]) if obl.get("pre") else None
-    budget = obl.get("budget", 60) * float(os.environ.get("VERIF_BUDGET_SCALE", "1"))
+    budget = obl.get("budget", 60) * float(os.environ.get("VERIF_BUDGET_SCALE", "3"))
     per_path = obl.get("per_path", 30)
     known = set(task.get("known", []))
     counters = {"completed": 0}
@@ -427,7 +427,7 @@ class Pool:
     def _assign(self, w, task):
         w["task"] = task
         w["t0"] = time.time()
-        b = task["obl"].get("budget", 60) * float(os.environ.get("VERIF_BUDGET_SCALE", "1"))
+        b = task["obl"].get("budget", 60) * float(os.environ.get("VERIF_BUDGET_SCALE", "3"))
         w["hard"] = 2 * b + 90
         w["conn"].send(task)
 
